@@ -13,11 +13,15 @@ import "encoding/json"
 // nil when the request has no "params" member, otherwise a non-nil raw message.
 var verifC08ParamsMissing bool
 
-func verifC08RawParams() *json.RawMessage {
+// `parsed` tells whether the code under test is going to parse the params (only then does the
+// known-finding region C08-params-nil apply).
+func verifC08RawParams(parsed bool) *json.RawMessage {
 	verifC08ParamsMissing = verifChoice("params.member", 2) == 0
 	if verifC08ParamsMissing {
 		// {"jsonrpc":"2.0","id":1,"method":"getBlock"}  -> req.Params == nil
-		verifKnownFinding("C08-params-nil", true)
+		if parsed {
+			verifKnownFinding("C08-params-nil", true)
+		}
 		return nil
 	}
 	raw := json.RawMessage("[opaque]")
@@ -161,7 +165,7 @@ func VerifC08Parse() {
 	if which < 0 {
 		which = verifChoice("method", 4)
 	}
-	raw := verifC08RawParams()
+	raw := verifC08RawParams(true)
 	switch which {
 	case 0:
 		verifC08ParseGetBlock(raw)
